@@ -12,8 +12,13 @@ Lemma scope_parts i : in_scope i = true ->
   table_ok (i_table i) = true /\ store_ok (i_table i) (i_store i) = true /\
   defaults_ok (options (i_table i)) (i_defaults i) = true /\ forallb (op_ok (options (i_table i))) (i_ops i) = true.
 Proof.
-  unfold in_scope. intros H. apply andb_true_iff in H as [H H4]. apply andb_true_iff in H as [H H3].
-  apply andb_true_iff in H as [H1 H2]. auto.
+  unfold in_scope. intros H. apply andb_true_iff in H as [H H4]. apply andb_true_iff in H as [H _].
+  apply andb_true_iff in H as [H H3]. apply andb_true_iff in H as [H1 H2]. auto.
+Qed.
+
+Lemma scope_pre i : in_scope i = true -> pre_ok (options (i_table i)) (i_pre i) = true.
+Proof.
+  unfold in_scope. intros H. apply andb_true_iff in H as [H _]. apply andb_true_iff in H as [_ H]. exact H.
 Qed.
 
 Lemma second_world i (f : ost -> bool) : f (eff_ost i) = true -> existsb f (worlds i) = true.
@@ -26,7 +31,7 @@ Theorem bootstrap_view i :
                    boot_oracle i true snap = true.
 Proof.
   intros Hs. destruct (scope_parts _ Hs) as [Ht [Hst [Hd _]]].
-  destruct (bootstrap_synced i Ht Hst Hd) as [st0 [E R]].
+  destruct (bootstrap_synced i Ht Hst Hd (scope_pre _ Hs)) as [st0 [E R]].
   destruct (snapshot_sim (options (i_table i)) (i_defaults i) (in_opts_nodup i Ht) st0 (mon0 i) (options (i_table i)) R
                          (fun c k H => H)) as [snap [Hsn Hok]].
   exists st0, snap. split; [assumption|]. split; [exact Hsn|].
@@ -42,7 +47,7 @@ Proof.
   intros Hs Hk H. pose proof Hs as Hs'. unfold c10_scope in Hs'. apply andb_true_iff in Hs' as [Hs' _].
   apply andb_true_iff in Hs' as [Hin _].
   destruct (scope_parts _ Hin) as [Ht [Hst [Hd _]]].
-  destruct (bootstrap_synced i Ht Hst Hd) as [st0 [E R]].
+  destruct (bootstrap_synced i Ht Hst Hd (scope_pre _ Hin)) as [st0 [E R]].
   destruct (snapshot_sim (options (i_table i)) (i_defaults i) (in_opts_nodup i Ht) st0 (mon0 i) (options (i_table i)) R
                          (fun c k H0 => H0)) as [snap' [Hsn Hok]].
   unfold model_run in H. rewrite E in H. fold (option_names i) in Hsn. rewrite Hsn in H.
@@ -100,7 +105,7 @@ Proof.
   intros Hs Hk Hc H. unfold c11_scope in Hs. apply andb_true_iff in Hs as [Hs Hcp]. apply negb_true_iff in Hcp.
   destruct (scope_parts _ Hs) as [Ht [Hst [Hd Hops]]].
   unfold c11_known in Hk.
-  destruct (bootstrap_synced i Ht Hst Hd) as [st0 [E R]].
+  destruct (bootstrap_synced i Ht Hst Hd (scope_pre _ Hs)) as [st0 [E R]].
   destruct (snapshot_sim (options (i_table i)) (i_defaults i) (in_opts_nodup i Ht) st0 (mon0 i) (options (i_table i)) R
                          (fun c k H0 => H0)) as [snap' [Hsn Hok]].
   unfold model_run in H. rewrite E in H. fold (option_names i) in Hsn. rewrite Hsn in H.
